@@ -1,5 +1,5 @@
 (* C12 - strict mode fails fast, lenient mode skips exactly the failing packets.  Statements only (WorldProofs.v). *)
-From RU Require Import Base Types Defs BitReader World WorldProofs.
+From RU Require Import Base Types Defs BitReader World WorldProofs Layout LayoutProofs.
 
 (* strict: the result is the fold over the prefix before the first failing packet, and the error is that packet's *)
 Theorem C12_strict_stops_at_first_failure : forall St ps w w1 e,
@@ -34,3 +34,10 @@ Theorem C12_no_failure_modes_agree : forall St ps w,
   play_strict St w ps = (play_lenient St w ps, None).
 Proof. exact no_failure_modes_agree. Qed.
 Print Assumptions C12_no_failure_modes_agree.
+
+(* the byte layout of every packet class is a TABLE (Layout.class_layout) that the translator tools/gen_packets.py regenerates from the
+   __init__ of the packet classes on every run (generated instance theorems: translated layout = class_layout); the model's step function
+   is the table-driven one: the header fields are read by the generic parser from that table and handed to the class's handler *)
+Theorem C12_step_is_table_driven : forall St w c pl, step_class St w c pl = step_layout St w c pl.
+Proof. exact step_class_is_layout. Qed.
+Print Assumptions C12_step_is_table_driven.
